@@ -844,22 +844,33 @@ ST_KIND = _weights([("plain", 3), ("first", 6), ("last", 5), ("decline", 5), ("p
 
 @st.composite
 def st_recipe(draw, req, min_size, max_size, depth):
+    """Block grammar: runs of exact-class predicates (which the router merges into one table) that grow with distinct
+    origins, are closed by a repeated origin or by a non-groupable predicate, and start again behind it; predicates
+    are biased towards those that match a location reached from ``req`` so that entries are actually consulted."""
     n = draw(st.integers(min_size, max_size))
     out, prev_exact, run = [], False, []
     relevant = RELEVANT[req]
     rel_exact = [p for p in relevant if PREDS[p][1] is not None]
     rel_non = [p for p in relevant if PREDS[p][1] is None]
     for _ in range(n):
-        exact = draw(st.integers(0, 9)) < (6 if prev_exact else 5)
+        exact = draw(st.integers(0, 9)) < (7 if prev_exact else 5)
         if exact:
             mode = draw(st.integers(0, 9))
-            if run and mode < 3:
+            origins = {PREDS[p][1] for p in run}
+            fresh = [p for p in EXACT_PREDS if PREDS[p][1] not in origins]
+            fresh_rel = [p for p in rel_exact if PREDS[p][1] not in origins]
+            if run and mode < 2:
                 pred = draw(st.sampled_from(run))  # repeat an origin of the current run -> the table must be closed
-            elif mode < 7:
-                pred = draw(st.sampled_from(rel_exact))
+            elif fresh_rel and mode < 5:
+                pred = draw(st.sampled_from(fresh_rel))
+            elif fresh and mode < 9:
+                pred = draw(st.sampled_from(fresh))  # grows the table (never-matching members included)
             else:
-                pred = draw(st.sampled_from(EXACT_PREDS))
-            run.append(pred)
+                pred = draw(st.sampled_from(rel_exact))
+            if PREDS[pred][1] in origins:
+                run = []  # closed by the repeat; the repeated entry itself stays outside of a table
+            else:
+                run.append(pred)
         else:
             pred = draw(st.sampled_from(rel_non)) if draw(st.integers(0, 9)) < 7 else draw(
                 st.sampled_from(NONEXACT_PREDS))
@@ -870,7 +881,7 @@ def st_recipe(draw, req, min_size, max_size, depth):
                      "debug": draw(st.integers(0, 2))}
             if draw(st.booleans()):
                 out.append(["BARE", "retort", inner])
-                run = []
+                run, prev_exact = [], False
             else:
                 out.append([pred, "retort", inner])
             continue
@@ -945,8 +956,9 @@ FIXED = [
 ]
 
 
-def _enumerate(ctx, alphabet, max_len, name, dirs):
-    """All recipes over ``alphabet`` of length 0..max_len x all requests x ``dirs``; sharded by recipe index."""
+def _enumerate(ctx, alphabet, max_len, name, dump_every=1):
+    """All recipes over ``alphabet`` of length 0..max_len x all requests x load (and dump for every
+    ``dump_every``-th recipe); sharded by recipe index."""
     i = 0
     for n in range(max_len + 1):
         for combo in itertools.product(alphabet, repeat=n):
@@ -956,6 +968,7 @@ def _enumerate(ctx, alphabet, max_len, name, dirs):
             if ctx.out_of_time():
                 return False
             recipe = [list(x) for x in combo]
+            dirs = ("load", "dump") if (i // ctx.nshards) % dump_every == 0 else ("load",)
             for req in REQS:
                 for d in dirs:
                     case = {"dir": d, "req": req, "recipe": recipe, "logged": True,
@@ -970,26 +983,27 @@ def _enumerate(ctx, alphabet, max_len, name, dirs):
 
 def explore(ctx: runner.Ctx):
     thorough = ctx.tier == "thorough"
+    excl = (f" except a 15/16 share of the length>=3 cases affected by the open finding {KNOWN_ID} "
+            "(counted as excluded_known)") if EXCLUDE_KNOWN else ""
     if ctx.shard == 0:
         for case in FIXED:
             ctx.label("src:fixed")
             check_case(ctx, case)
     n_core = 4 if thorough else 3
-    if _enumerate(ctx, CORE, n_core, "exhaustive_core", ("load", "dump")):
-        ctx.mark_exhaustive(f"all recipes of length 0..{n_core} over the core alphabet ({len(CORE)} (predicate, handler) "
-                            f"entries) x requests {REQS} x (load, dump)"
-                            + (" except a 15/16 share of the cases affected by the open finding "
-                               f"{KNOWN_ID} (counted as excluded_known)" if EXCLUDE_KNOWN else ""))
+    if _enumerate(ctx, CORE, n_core, "exhaustive_core"):
+        ctx.mark_exhaustive(f"all recipes of length 0..{n_core} over the core alphabet ({len(CORE)} (predicate, "
+                            f"handler) entries) x requests {REQS} x (load, dump)" + excl)
     n_full = 3 if thorough else 2
-    if _enumerate(ctx, FULL, n_full, "exhaustive_full", ("load",) if thorough else ("load", "dump")):
+    if _enumerate(ctx, FULL, n_full, "exhaustive_full", dump_every=4 if thorough else 1):
         ctx.mark_exhaustive(f"all recipes of length 0..{n_full} over the full product alphabet ({len(FULL_PREDS)} "
                             f"predicates x {len(KINDS)} handler kinds = {len(FULL)} entries) x requests x "
-                            + ("load" if thorough else "(load, dump)"))
+                            + ("load (dump: every 4th recipe only, not exhaustive)" if thorough else "(load, dump)")
+                            + excl)
 
     def sampled(case):
         ctx.label("src:sampled")
         check_case(ctx, case)
-    ctx.given(st_case(), sampled, ctx.budget(6000, 60000))
+    ctx.given(st_case(), sampled, ctx.budget(16000, 200000))
 
 
 EXCLUDE_KNOWN = exclusion_active()
